@@ -337,6 +337,36 @@ def rule_destination(ck: Check, repo: Repo) -> None:
                         {"valuation": d})
 
 
+def rule_transfer_failures(ck: Check, repo: Repo, rid: str = "R4") -> None:
+    """Every way the transfer can fail must end in one of the handlers of the command's loop (they set the exit status
+    and go on with the next licence).  Exception-escape analysis of download_license against the handler set."""
+    from ..callgraph import CallGraph, Escape
+    from ..typed import TypeFacts
+    r = ck.rule(rid, "every failure of a transfer is caught by the per-licence handlers (exit status set, batch continues)")
+    cg = CallGraph(repo, TypeFacts(repo))
+    esc = Escape(cg)
+    q = f"{DL}.download_license"
+    cmd = repo.commands()["download"]
+    handlers = sorted({ast.unparse(e) for n in ast.walk(cmd) if isinstance(n, ast.Try) for h in n.handlers if h.type is not None
+                       for e in (h.type.elts if isinstance(h.type, ast.Tuple) else [h.type])})
+    full = {"URLError": "urllib.error.URLError", "FileExistsError": "builtins.FileExistsError", "FileNotFoundError": "builtins.FileNotFoundError",
+            "OSError": "builtins.OSError", "Exception": "builtins.Exception", "HTTPException": "http.client.HTTPException"}
+    hs = [full.get(h, h) for h in handlers]
+    r.instance("handlers", {"handlers": handlers})
+    keys = esc.esc.get(q, {})
+    r.floor(1, "exceptions of download_license", got=len(keys))
+    for (exc, origin) in sorted(keys):
+        caught = any(esc.catches(h, exc) for h in hs)
+        r.instance(f"{exc}@{origin[:60]}", {"exception": exc, "origin": origin[:100], "caught_by_the_loop": caught})
+        if not caught:
+            short = exc.split(".")[-1]
+            r.violation(q, f"{short} from the transfer is not handled by the download loop",
+                        f"{origin}: `reuse download A B C` ends in a traceback at the first licence whose transfer fails this way -"
+                        f" the remaining licences are not downloaded and the failure is not reported per licence (handlers:"
+                        f" {handlers})", repo.loc(repo.func(q)))
+
+
+
 def run(ck: Check, repo: Repo) -> None:
     ck.explanation = (
         "Decision/effect tables: put_license_in_file (every file-system effect on the destination is dominated by the"
@@ -351,3 +381,4 @@ def run(ck: Check, repo: Repo) -> None:
     rule_put(ck, repo)
     rule_cli(ck, repo)
     rule_destination(ck, repo)
+    rule_transfer_failures(ck, repo)
